@@ -6,6 +6,11 @@
 //	        with the identity (pointer) of every stored block object;
 //	C42     two chain.Chain objects whose magic blocks hold sharder pools built in different orders:
 //	        CanShardBlockWithReplicators, IsBlockSharder, IsBlockSharderFromHash per sharder.
+//	        Behaviours of kind "replh" give the second node a pool HISTORY: after its pool was built,
+//	        some of the very same *node.Node objects are also added to the sharder pool of another
+//	        magic block (node objects are shared between pools, SetIndex is a field of the node), and
+//	        then known sharders are announced again to the first pool (AddNode of an existing key,
+//	        with the same or with a fresh node object).
 //
 // Every behaviour (insertion orders, seeds, operation sequences, replicator counts) is enumerated by
 // TLC (Gen_Rank_C35.tla / Gen_Rank_C42.tla); block hashes are seeded.  Trace_Rank.tla judges.
@@ -53,18 +58,32 @@ type behaviour struct {
 		B  blockObj `json:"b"`
 	} `json:"ops"`
 	N10 int `json:"n10"`
+	// kind "replh" only: pool history of the second node
+	Ob   []string `json:"ob"`   // sharders also added (same node objects) to the pool of another magic block
+	Re   []pair   `json:"re"`   // then added again to the pool: a = sharder, d = 1 a fresh node object, 0 the same one
+	N10s []int    `json:"n10s"` // replicator counts (+10) to observe on the pools built once
 }
 
 type driver struct {
 	a    common.Args
 	rc   *rec.Recorder
 	salt string
+	kc   map[string]consobj.Key
+}
+
+func (d *driver) key(name string) consobj.Key {
+	if k, ok := d.kc[name]; ok {
+		return k
+	}
+	k := consobj.NewKey(d.salt, name)
+	d.kc[name] = k
+	return k
 }
 
 func (d *driver) keys(names []string) []consobj.Key {
 	ks := make([]consobj.Key, len(names))
 	for i, n := range names {
-		ks[i] = consobj.NewKey(d.salt, n)
+		ks[i] = d.key(n)
 	}
 	return ks
 }
@@ -81,7 +100,7 @@ func Run(a common.Args) {
 	consobj.Init()
 	rc := rec.New(a.Out)
 	defer rc.Close()
-	d := &driver{a: a, rc: rc, salt: fmt.Sprintf("rank-%d", a.Seed)} // ids (hence id order) vary with the seed
+	d := &driver{a: a, rc: rc, salt: fmt.Sprintf("rank-%d", a.Seed), kc: map[string]consobj.Key{}} // ids (hence id order) vary with the seed
 	raw := common.Behaviours(a.Behav)
 	if len(raw) == 0 {
 		rec.Fatal("rank: no behaviours (this driver only replays TLC-enumerated behaviours)")
@@ -104,7 +123,7 @@ func Run(a common.Args) {
 			d.ranking(b)
 		case b.K == "nb" && a.Prop == "C35":
 			d.notarized(b)
-		case b.K == "repl" && a.Prop == "C42":
+		case (b.K == "repl" || b.K == "replh") && a.Prop == "C42":
 			d.replicators(b, rnd)
 		default:
 			rec.Fatal("rank: behaviour kind %q does not belong to %s", b.K, a.Prop)
@@ -119,7 +138,7 @@ func (d *driver) rankOn(order []string, seed int64) (ranks []pair, byRank []stri
 	pool, _ := consobj.NewPool(node.NodeTypeMiner, d.keys(order))
 	name := map[string]string{}
 	for _, n := range order {
-		name[consobj.NewKey(d.salt, n).ID] = n
+		name[d.key(n).ID] = n
 	}
 	r := round.Provider().(*round.Round)
 	r.Number = 5
@@ -209,24 +228,55 @@ func (d *driver) notarized(b behaviour) {
 
 // ------------------------------------------------------------------ C42
 
-func (d *driver) chainWith(order []string, n int) (*chain.Chain, *node.Pool, map[string]string) {
+// sharderPool builds one node's sharder pool: fresh node objects added in the given order; then the
+// pool history (second node of "replh" behaviours): the SAME node objects are also added to the sharder
+// pool of another magic block (a sharder unknown to the first pool gets its own object there), and
+// finally already known sharders are added to the first pool again (replace path of Pool.AddNode).
+func (d *driver) sharderPool(order, ob []string, re []pair) (*node.Pool, map[string]string) {
+	pool, objs := consobj.NewPool(node.NodeTypeSharder, d.keys(order))
+	obj := map[string]*node.Node{}
+	name := map[string]string{}
+	for i, s := range order {
+		obj[s] = objs[i]
+		name[d.key(s).ID] = s
+	}
+	if len(ob) > 0 {
+		other := node.NewPool(node.NodeTypeSharder) // mb.Sharders of another magic block
+		for _, s := range ob {
+			if obj[s] == nil {
+				obj[s] = consobj.NewNode(d.key(s), node.NodeTypeSharder)
+				name[d.key(s).ID] = s
+			}
+			if err := other.AddNode(obj[s]); err != nil {
+				rec.Fatal("rank: AddNode(other pool, %s): %v", s, err)
+			}
+		}
+	}
+	for _, r := range re {
+		if r.D == 1 || obj[r.A] == nil {
+			obj[r.A] = consobj.NewNode(d.key(r.A), node.NodeTypeSharder)
+			name[d.key(r.A).ID] = r.A
+		}
+		if err := pool.AddNode(obj[r.A]); err != nil {
+			rec.Fatal("rank: AddNode(again, %s): %v", r.A, err)
+		}
+	}
+	return pool, name
+}
+
+func (d *driver) chainOn(pool *node.Pool, n int) *chain.Chain {
 	viper.Set("server_chain.block.replicators", n)
 	c := chain.Provider().(*chain.Chain)
 	if c.NumReplicators() != n {
 		rec.Fatal("rank: chain reports %d replicators, configured %d", c.NumReplicators(), n)
 	}
-	pool, _ := consobj.NewPool(node.NodeTypeSharder, d.keys(order))
 	mb := block.NewMagicBlock()
 	mb.Miners = node.NewPool(node.NodeTypeMiner)
 	mb.Sharders = pool
 	mb.StartingRound = 0
 	mb.MagicBlockNumber = 1
 	c.SetMagicBlock(mb)
-	name := map[string]string{}
-	for _, s := range order {
-		name[consobj.NewKey(d.salt, s).ID] = s
-	}
-	return c, pool, name
+	return c
 }
 
 // score as the real scorer computes it (only used to SEARCH for hashes that tie at the cut)
@@ -247,7 +297,7 @@ func (d *driver) pickHash(order []string, n int, rnd *rand.Rand, wantTie bool) (
 		}
 		var sc []int
 		for _, s := range order {
-			sc = append(sc, int(score(consobj.NewKey(d.salt, s).ID, h)))
+			sc = append(sc, int(score(d.key(s).ID, h)))
 		}
 		sort.Sort(sort.Reverse(sort.IntSlice(sc)))
 		if sc[n-1] == sc[n] {
@@ -258,59 +308,94 @@ func (d *driver) pickHash(order []string, n int, rnd *rand.Rand, wantTie bool) (
 }
 
 func (d *driver) replicators(b behaviour, rnd *rand.Rand) {
-	n := b.N10 - 10
-	// the two nodes: each its own chain object and its own sharder pool (own node objects)
+	// the two nodes: each its own sharder pool (own node objects), the second one possibly with a history
 	type nodeSide struct {
-		c    *chain.Chain
-		pool *node.Pool
-		name map[string]string
+		pool  *node.Pool
+		name  map[string]string
+		names []string // the sharders this node was told about (sorted)
 	}
 	var sides []nodeSide
-	for _, order := range [][]string{b.O1, b.O2} {
-		c, pool, name := d.chainWith(order, n)
-		sides = append(sides, nodeSide{c, pool, name})
+	for i, order := range [][]string{b.O1, b.O2} {
+		var ob []string
+		var re []pair
+		if i == 1 {
+			ob, re = b.Ob, b.Re
+		}
+		pool, name := d.sharderPool(order, ob, re)
+		names := append([]string{}, order...)
+		sort.Strings(names)
+		sides = append(sides, nodeSide{pool, name, names})
 	}
-	for k := 0; k < 4; k++ { // four block hashes per behaviour, every second one with a tie at the cut
-		hash, tie := d.pickHash(b.O1, n, rnd, k%2 == 1)
-		res := map[int]rec.M{}
-		for side := range sides {
-			c, pool, name := sides[side].c, sides[side].pool, sides[side].name
-			blk := block.Provider().(*block.Block)
-			blk.Round = 5
-			blk.Hash = hash
-			set := []string{}
-			in := []pair{}
-			ok := []pair{}
-			for _, s := range pool.CopyNodes() {
-				can, nodes := c.CanShardBlockWithReplicators(5, hash, s)
-				if len(set) == 0 {
-					for _, x := range nodes {
-						set = append(set, name[x.GetKey()])
+	ns, hashes := []int{b.N10 - 10}, 4
+	if b.K == "replh" {
+		ns, hashes = nil, 2
+		for _, n10 := range b.N10s {
+			ns = append(ns, n10-10)
+		}
+	}
+	ob := strs(b.Ob)
+	re := b.Re
+	if re == nil {
+		re = []pair{}
+	}
+	hist := "plain"
+	if b.K == "replh" {
+		hist = "shared-readd"
+	}
+	for _, n := range ns {
+		// each node its own chain object, configured with n replicators
+		chains := []*chain.Chain{d.chainOn(sides[0].pool, n), d.chainOn(sides[1].pool, n)}
+		for k := 0; k < hashes; k++ { // every second block hash with a tie at the cut
+			hash, tie := d.pickHash(b.O1, n, rnd, k%2 == 1)
+			res := map[int]rec.M{}
+			for side := range sides {
+				c, pool, name := chains[side], sides[side].pool, sides[side].name
+				blk := block.Provider().(*block.Block)
+				blk.Round = 5
+				blk.Hash = hash
+				set := []string{}
+				in := []pair{}
+				ok := []pair{}
+				// every sharder the node knows (pool map) asks
+				for _, sn := range sides[side].names {
+					s := pool.GetNode(d.key(sn).ID)
+					if s == nil {
+						in = append(in, pair{sn, -1})
+						ok = append(ok, pair{sn, -1})
+						continue
 					}
-					sort.Strings(set)
+					can, nodes := c.CanShardBlockWithReplicators(5, hash, s)
+					if len(set) == 0 {
+						for _, x := range nodes {
+							set = append(set, name[x.GetKey()])
+						}
+						sort.Strings(set)
+					}
+					is := c.IsBlockSharder(blk, s)
+					if c.IsBlockSharderFromHash(5, hash, s) != is {
+						is = !is // disagreement between the two entry points shows up as in != ok below
+					}
+					in = append(in, pair{sn, b2i(is)})
+					ok = append(ok, pair{sn, b2i(can)})
 				}
-				is := c.IsBlockSharder(blk, s)
-				if c.IsBlockSharderFromHash(5, hash, s) != is {
-					is = !is // disagreement between the two entry points shows up as in != ok below
+				res[side] = rec.M{"set": set, "in": in, "ok": ok}
+			}
+			cls := "n<=0"
+			if n > 0 {
+				cls = "n<=size"
+				if n > len(b.O1) {
+					cls = "n>size"
 				}
-				in = append(in, pair{name[s.GetKey()], b2i(is)})
-				ok = append(ok, pair{name[s.GetKey()], b2i(can)})
 			}
-			sort.Slice(in, func(i, j int) bool { return in[i].A < in[j].A })
-			sort.Slice(ok, func(i, j int) bool { return ok[i].A < ok[j].A })
-			res[side] = rec.M{"set": set, "in": in, "ok": ok}
-		}
-		cls := "n<=0"
-		if n > 0 {
-			cls = "n<=size"
-			if n > len(b.O1) {
-				cls = "n>size"
+			shape := fmt.Sprintf("%s/tie=%v/|set|=%d", cls, tie, len(res[0]["set"].([]string)))
+			if b.K == "replh" {
+				shape = hist + "/" + shape
 			}
+			d.rc.Emit(rec.M{"ev": "Repl", "n": n, "size": len(b.O1), "o1": strs(b.O1), "o2": strs(b.O2),
+				"ob": ob, "re": re,
+				"set1": res[0]["set"], "set2": res[1]["set"], "in1": res[0]["in"], "in2": res[1]["in"],
+				"ok1": res[0]["ok"], "ok2": res[1]["ok"], "tie": tie}, shape, true)
 		}
-		d.rc.Emit(rec.M{"ev": "Repl", "n": n, "size": len(b.O1), "o1": strs(b.O1), "o2": strs(b.O2),
-			"set1": res[0]["set"], "set2": res[1]["set"], "in1": res[0]["in"], "in2": res[1]["in"],
-			"ok1": res[0]["ok"], "ok2": res[1]["ok"], "tie": tie},
-			fmt.Sprintf("%s/tie=%v/|set|=%d", cls, tie, len(res[0]["set"].([]string))), true)
 	}
 }
 
